@@ -300,6 +300,17 @@ def instrumented(world, conv, steps, fail_at):
     orig_check = conv.check_NP24
 
     def w_check(*a, **k):
+        if fail_at == "D" and not state.get("damaged"):
+            # the other kind of fault (spec Damage): one sample of a shank AP file changes between the conversion and its
+            # verification, in the FIRST verification window (the verification has to look at every window)
+            steps.append({"pt": "damage", "fs": world.project(), "cd": bool(conv.check_completed), "vr": state["verified"]})
+            f = world.paths(max(world.shanks()))["ap"]
+            with open(f, "r+b") as fid:
+                fid.seek(7 * 2)
+                b = fid.read(2)
+                fid.seek(7 * 2)
+                fid.write(bytes([b[0] ^ 0x55, b[1]]))
+            state["damaged"] = True
         point("check")
         state["in_check"] = True
         try:
@@ -466,6 +477,8 @@ def one_process(world, o, fail_at, steps, conv=None, mode=None):
                               "exc": f"{type(e).__name__}: {e}"[:160]})
         finally:
             close_files(conv)
+    if fail_at == "D":
+        fired = bool(getattr(conv, "_verif_state", {}).get("damaged"))
     if fail_at is not None and not fired:
         return None, conv
     if len(steps) == n0 and status != "raised":
@@ -626,6 +639,11 @@ def plan(ctx):
                 out.append((kind, form, [(o, fa), (dict(o, ow=True), None, True)]))
                 if not ctx.quick:
                     out.append((kind, form, [(o, fa), (dict(o, ow=False), None, True)]))
+        # a shank file damaged before the verification (fault "D"): the run must refuse, whatever else is asked of it
+        if kind == "NP24":
+            for o in [x for x in opts if x["chk"]][:: (2 if ctx.quick else 1)]:
+                out.append((kind, form, [(o, "D")]))
+                out.append((kind, form, [(o, "D"), (dict(rnd.choice(opts), ow=True), None)]))
         # partial conversions: single runs with every interruption point, then followed by a whole-recording run / preceded by one
         for o in part_opts():
             out.append((kind, form, [(o, "ALL" if (form == "bin" or not ctx.quick) else None)]))
@@ -786,7 +804,7 @@ def describe(t):
     return f"{t['kind']}/{t['form']} " + "".join(f"{k}={v} " for k, v in sorted(su.items())) + "history " + " ; ".join(
         (who.get(r[2], "") if len(r) > 2 else "") + "process(" + ",".join(k for k in OPT_KEYS if r[0].get(k))
         + (f",hand={r[0]['hand']}" if r[0].get("hand") else "") + ")"
-        + (f"@crash{r[1]}" if r[1] is not None else "") for r in t["runs"])
+        + ("@shank-file-damaged-before-verification" if r[1] == "D" else f"@crash{r[1]}" if r[1] is not None else "") for r in t["runs"])
 
 
 def report(ctx, traces, verdicts):
